@@ -11,7 +11,7 @@ VERIFICATION_MSGS = (
     'postcondition not satisfied', 'precondition not satisfied', 'invariant not satisfied',
     'assertion failed', 'decreases not satisfied', 'possible arithmetic', 'possible division by zero',
     'loop invariant', 'unreachable', 'possible bit shift', 'failed this',
-    'cannot show invariant', 'index out of bounds', 'could not prove', 'termination',
+    'cannot show invariant', 'unable to prove post-condition of closure', 'unable to prove', 'index out of bounds', 'could not prove', 'termination',
 )
 UNDECIDED_MSGS = ('Resource limit', 'rlimit', 'timed out', 'resource limit')
 
@@ -193,7 +193,7 @@ class UnitResult:
     pass
 
 
-def check_unit(vc_path, tier='quick', sentinel=True, build_dir=None):
+def check_unit(vc_path, tier='quick', sentinel=True, build_dir=None, pid=None):
     r = UnitResult()
     t0 = time.time()
     u = vc.parse(vc_path)
@@ -246,6 +246,9 @@ def check_unit(vc_path, tier='quick', sentinel=True, build_dir=None):
     r.smt_ms = js.get('times-ms', {}).get('smt', {}).get('smt-run')
     blocks = parse_errors(stderr, path)
     r.failed, r.tool_errors, r.undecided = classify(blocks, ranges, labels, u.name)
+    carr = {it['path']: it.get('carries') for it in u.items}
+    for f in r.failed:
+        f['carries'] = carr.get(f['fn']) or u.serves
     if r.tool_errors or res.get('encountered-vir-error'):
         r.status = 'undecided'
         r.reasons += ['tool: ' + t['msg'] for t in r.tool_errors[:5]]
@@ -289,11 +292,22 @@ def check_unit(vc_path, tier='quick', sentinel=True, build_dir=None):
                     w = item_at(sranges, ln or 0)
                     if w:
                         break
-                if w:
+                if w is not None:
                     failed_sent.add(w)
                 else:
                     n_axiom_sent = True
-        vacuous = [c for c in contracted if c not in failed_sent]
+        # sentinel copies are the LAST len(contracted) items of the sentinel file
+        sent_ranges = sranges[len(sranges) - len(contracted):]
+        failed_idx = set()
+        for b in sblocks:
+            if b['level'] != 'error':
+                continue
+            for ln in [b['primary']] + b['lines']:
+                if ln in slabels:
+                    for k, (s0, e0, p0) in enumerate(sent_ranges):
+                        if s0 <= ln <= e0:
+                            failed_idx.add(k)
+        vacuous = [sent_ranges[k][2] for k in range(len(sent_ranges)) if k not in failed_idx]
         r.sentinels = {'run': True, 'contracted': len(contracted), 'failed_as_required': len(contracted) - len(vacuous), 'vacuous': vacuous, 'axiom_consistency_sentinel_failed_as_required': n_axiom_sent, 'wall_s': round(swall, 2)}
         if vacuous or not n_axiom_sent:
             r.status = 'undecided'
